@@ -21,7 +21,7 @@ IDS = ["ce", "bcewl", "logsoftmax", "linear", "addmm", "conv2d", "conv1d", "maxp
 
 def gen_cases(tier, seed):
     rng = gen.rng_for(seed, "c14", tier)
-    reps = 40 if tier == "quick" else 2500
+    reps = 120 if tier == "quick" else 2500
     geos = nncatalog.geo1d(7)
     pgeos = nncatalog.geo1d(7, pool=True)
     cases = []
